@@ -1365,8 +1365,14 @@ fn track_scenarios(s: &mut Session, r: &mut Rng, ids: &[ClockId], count: u64) {
 			s.fail(desc.clone(), "left and right channels differ".into(), None);
 		}
 		// ---- the model: the same sound as a case, up to and including the callback in which it stops
+		let upto = per.iter().position(|x| x.0 == PlaybackState::Stopped).map(|p| p + 1).unwrap_or(per.len());
+		let t = if streaming {
+			let refs: Vec<&Cb> = cbs[..upto].iter().collect();
+			stream_term(&Start::Imm, &None, &refs, &env[..upto], &tab)
+		} else {
+			format!("CSound 4 0 1 SImm None [{}] [{}]", cbs[..upto].iter().map(cb_term).collect::<Vec<_>>().join("; "), tab_term(&tab))
+		};
 		if !on_sub {
-			let upto = per.iter().position(|x| x.0 == PlaybackState::Stopped).map(|p| p + 1).unwrap_or(per.len());
 			let mut obs = vec![];
 			for (stt, pos, outs, _) in &per[..upto] {
 				obs.push(state_code(*stt));
@@ -1374,14 +1380,10 @@ fn track_scenarios(s: &mut Session, r: &mut Rng, ids: &[ClockId], count: u64) {
 				obs.push((*stt == PlaybackState::Stopped) as i128);
 				obs.extend(outs.iter().map(|x| obs32(*x)));
 			}
-			let t = if streaming {
-				let refs: Vec<&Cb> = cbs[..upto].iter().collect();
-				stream_term(&Start::Imm, &None, &refs, &env[..upto], &tab)
-			} else {
-				format!("CSound 4 0 1 SImm None [{}] [{}]", cbs[..upto].iter().map(cb_term).collect::<Vec<_>>().join("; "), tab_term(&tab))
-			};
 			s.case(if streaming { "main_track_stream" } else { "main_track_static" }, t.clone(), &obs, Some(key_of(&t)));
 		}
+		// the history as the sound saw it, for the replay file
+		let desc = format!("{desc}: {t}");
 		// ---- the life cycle, from the moment the command was issued (callback index `at`)
 		let n_after = |j: usize| (j + 1 - at) * frames; // frames processed since the command, through callback j
 		let mut violated = false;
@@ -1478,7 +1480,7 @@ pub fn run(args: &Args) {
 		"From Coq Require Import ZArith List. Import ListNotations. Open Scope Z_scope.\nFrom KV Require Import Base.Corr C06.Run C03.Run.",
 		"run",
 		60,
-		"one case = one real static sound (DC frames, looping or finite, start position, start time immediate/delayed/clock, optional fade-in) driven through 3-9 callbacks of 1-2 process calls with generated pause / resume / resume_at / stop commands (tween durations 0, sub-frame, frame multiples, arbitrary; Linear/Powi easings; start times immediate/delayed/clock present, paused, removed); observables per callback: handle.state(), handle.position(), finished(), every output sample; distinct = distinct scenario text; non-trivial = at least one command or a natural end",
+		"one case = one real sound of DC frames (output == gain) driven through callbacks with generated pause / resume / resume_at / stop commands (tween durations 0, sub-frame, frame multiples, arbitrary; Linear/Powi easings; start times immediate/delayed/clock present, paused, removed); kinds: history = static sound as a bare Sound (looping or finite, start position, start time, optional fade-in; 3-9 callbacks of 1-2 process calls); stream_history = streaming sound as a bare Sound with a scripted decoder whose thread is paced by permits, so the ring content at every callback is exactly known (mostly starved; natural end; decoder error at a scripted call); stream_fade_starved = fade command on a starved stream with a known answer; stream_error_not_advancing = decoder error while Paused / WaitingToResume / start time pending / Pausing; ended_at_construction = static sound reversed with nothing to play; main_track_static / main_track_stream = sound played through a real AudioManager on the main track with a command issued between play() and the first callback (or later); observables per callback: handle.state(), handle.position(), finished(), every output sample; distinct = distinct scenario text; non-trivial = at least one command or a natural end. Monitor-only scenarios (fade laws, natural end, unloading / slot reuse on tracks of capacity 1, sub-tracks, sounds that end at construction played on tracks) are counted as evaluations",
 	);
 	let ids = clock_ids();
 	for _ in 0..n {
